@@ -236,7 +236,8 @@ def wide_configs(tier, bfs=True, shrink=0):
     shrink: take that many keys fewer (checks whose monitors are expensive per state)."""
     out = []
     for impl in F.IMPLS:
-        fams = WIDE_FAMS_QUICK[impl] if tier == 'quick' else F.FAMILIES
+        # thorough: every family in C, the cover set in pure Python (about ten times slower per state)
+        fams = WIDE_FAMS_QUICK[impl] if tier == 'quick' else (F.FAMILIES if impl == 'c' else F.COVER)
         w = 3 if impl == 'py' else 1
         for fam in fams:
             for kind in F.TREE_KINDS:
